@@ -15,6 +15,9 @@ Definition ex (ps : list Z) (i : nat) : Z := p ps (16 + i).
 Definition getcol (s : shape) (d : list Z) : limbs := col_limbs (s_n s) (s_cols s) (s_size s) d (s_col s).
 Definition putcol (s : shape) (d : list Z) (l : limbs) : list Z := write_col (s_n s) (s_cols s) d (s_col s) l.
 
+Definition with_size (s : shape) (sz : nat) : shape :=
+  {| s_n := s_n s; s_cols := s_cols s; s_size := sz; s_max := s_max s; s_col := s_col s |}.
+
 Definition run_c09 (code : Z) (ps : list Z) (vs : list (list Z)) : option (list (list Z)) :=
   let w := 64 in
   let rs := shp ps 0 in let sa := shp ps 1 in let sb := shp ps 2 in
@@ -55,5 +58,18 @@ Definition run_c09 (code : Z) (ps : list Z) (vs : list (list Z)) : option (list 
   | 9022 => (* merge_rings: vs = [res; part_0; ...], parts share the shape sa *)
       let parts := tl vs in
       out (vec_merge_rings n (map (getcol sa) parts) r0)
-  | _ => run_c09_big code ps vs   (* 9101..9116: the big-accumulator family (Model/C09Big.v); None elsewhere *)
+  | _ =>
+      (* 9023 / 9024: split / merge with parts of DIFFERENT limb counts: ex i = active size of part i (capacity: the shape's) *)
+      if code =? 9023 then
+        let parts := tl vs in
+        if shape_ok sa (v vs 0) then
+          Some (map (fun q => let i := fst q in let d := snd q in let rsi := with_size rs (Z.to_nat (ex ps i)) in
+                      putcol rsi d (vec_split_part w n i (getcol sa (v vs 0)) (getcol rsi d)))
+                    (combine (seq 0 (length parts)) parts))
+        else None
+      else if code =? 9024 then
+        let parts := tl vs in
+        out (vec_merge_rings n (map (fun q => getcol (with_size sa (Z.to_nat (ex ps (fst q)))) (snd q))
+                                    (combine (seq 0 (length parts)) parts)) r0)
+      else run_c09_big code ps vs   (* 9101..9116: the big-accumulator family (Model/C09Big.v); None elsewhere *)
   end.
